@@ -30,11 +30,14 @@ EXPLANATION = ("Deductive (counted): (1) index sets - the rows handed out for a 
                "W H = I; (5) normalised water-filling (block_diagonalize) with doWF (C12) and the Frobenius norm as callees under contract, on "
                "an object whose public iPu / noise_var were changed after construction: doWF receives Sigma^2, K*iPu and the noise variance "
                "of the CURRENT attributes, every transmitter's power is <= iPu and the strongest == iPu (ring identity power*r_max^2 == "
-               "||block||^2*iPu per path of the max search + a three-variable arithmetic lemma).  The end-to-end claims (numerical nulling, normalised water-filling, whitening, stream reduction metrics, "
+               "||block||^2*iPu per path of the max search + a three-variable arithmetic lemma); (6) EnhancedBD (fixed / naive / no stream reduction) and "
+               "WhiteningBD with their callees under contract: what is requested from whom (covariance for the current pe, reduction basis with "
+               "the configured stream count, whitening per user), precoder = Ms_k P_k at power exactly iPu, stream counts == shapes, "
+               "W_k H_k MsP_k == I, W_k H_kj Ms_j == delta_kj on the physical channel; earlier solutions unchanged by later calls.  The end-to-end claims (numerical nulling, normalised water-filling, whitening, stream reduction metrics, "
                "external interference removal) rest on LAPACK SVD/rank decisions: bounded run-time contract checks - hence 'other'.")
 ASSUMPTIONS = [
     "callee contracts: least_right_singular_vectors (from the svd contract: A V0 = 0 for n = cols - rank A), matrix_rank = rows for "
-    "generic channels, pinv for full column rank, doWF (property C12)",
+    "generic channels, pinv for full column rank, doWF (property C12), calc_whitening_matrix and calc_cov_matrix_extint_plus_noise as abstract callees",
     "sizes configuration-concrete (entries symbolic); ideal reals; sqrt(X)^2 = X",
     "bounded part: K in 2..4, 1..4 antennas per user, absolute channel scales 1e-6..1e3, all stream-reduction metrics and stream counts",
 ]
